@@ -72,6 +72,13 @@ func vh_C17_dial() {
 	u := &URI{Scheme: scheme, Host: host, Port: port, Proto: proto}
 	nw := &vxNet{failDial: vxChoose(2) == 1}
 	cfg := &DialConfig{Net: nw}
+	if vxChoose(2) == 1 {
+		// a configuration that was used before for another server (or carries a name of its own): the server
+		// name of this dial is the URI's host all the same
+		cfg.TLSConfig.ServerName = "stale.example"
+		cfg.DTLSConfig.ServerName = "stale.example"
+		vxReach("config-with-server-name")
+	}
 	dtlsBranch := scheme == SchemeTypeTURNS && proto == ProtoTypeUDP
 	if dtlsBranch && vxNativeRun() {
 		return // would start a DTLS handshake on the fake connection
